@@ -83,7 +83,7 @@ func verifyVars() map[string]string {
 		"isnil($opts.Verify)":                         "verifyNil",
 		"($opts.Hash == 7)":                           "hashSHA512",
 		"($opts.Hash == 0)":                           "hashZero",
-		"(0 < len($opts.Context))":                    "ctxNonEmpty",
+		"(len($opts.Context) == 0)":                   "!ctxNonEmpty",
 		"(255 < len($opts.Context))":                  "ctxTooLong",
 		"(len($message) == 64)":                       "msgLen64",
 		"(len($sig) == 64)":                           "sigLen64",
